@@ -271,6 +271,36 @@ def acr122_parse_command(abdata):
     return a[6], a[7:]
 
 
+def acr122_classify_apdu(abdata):
+    """abData of a PC_to_RDR_XfrBlock sent to an ACR122U (ACR122U API v2.0x, "pseudo APDUs"):
+        FF 00 48 00 00                   get firmware version           -> ("version", b"")
+        FF 00 51 P2 00                   set PICC operating parameter   -> ("picc", P2)
+        FF 00 40 P2 04 T1 T2 N BUZ       bi-colour LED and buzzer       -> ("led", P2 + 4 octets)
+        FF 00 41 P2 00 / FF 00 52 P2 00  time-out / buzzer on detection -> ("timeout"|"buzzer", P2)
+        FF 00 00 00 Lc D4 cmd ..         direct transmit                -> ("direct", (cmd, params))
+    The length byte (P3: Lc for commands with data, Le = 00 for the others) must agree with the octets that follow.
+    Raises FrameError(clause) for anything else."""
+    a = bytes(abdata)
+    if len(a) < 5 or a[0:2] != b"\xff\x00":
+        raise FrameError("apdu-header", a[:5].hex())
+    ins = a[2]
+    if ins == 0x00:
+        return "direct", acr122_parse_command(a)
+    if ins == 0x48:
+        if a != b"\xff\x00\x48\x00\x00":
+            raise FrameError("apdu-Lc", a.hex())
+        return "version", b""
+    if ins in (0x51, 0x41, 0x52):
+        if len(a) != 5 or a[4] != 0x00:
+            raise FrameError("apdu-Lc", a[:12].hex())
+        return {0x51: "picc", 0x41: "timeout", 0x52: "buzzer"}[ins], a[3:4]
+    if ins == 0x40:
+        if a[4] != 0x04 or len(a) != 9:
+            raise FrameError("apdu-Lc", "%d != %d" % (a[4], len(a) - 5))
+        return "led", a[3:4] + a[5:9]
+    raise FrameError("apdu-ins", "%02X" % ins)
+
+
 def acr122_response_clauses(msg, cmd):
     """all rules a bulk-in message breaks as the ACR122U answer to PN532 command cmd:
     RDR_to_PC_DataBlock whose abData is  D5 cmd+1 .. 90 00"""
@@ -342,4 +372,17 @@ def selftest():
                             (h("80040000000000008100D5009000"), "code"), (h("80040000000000008100D5019100"), "sw"),
                             (h("80040000000000008100D5019001"), "sw")]:
         assert clause in acr122_response_clauses(bad_msg, 0), (bad_msg.hex(), clause); n += 1
+    # ACR122U pseudo APDUs other than direct transmit: the length byte must agree with what follows
+    assert acr122_classify_apdu(h("ff00480000")) == ("version", b""); n += 1
+    assert acr122_classify_apdu(h("ff00517f00")) == ("picc", b"\x7f"); n += 1
+    assert acr122_classify_apdu(h("ff00400e0400000000")) == ("led", h("0e00000000")); n += 1
+    assert acr122_classify_apdu(h("ff00000002d402")) == ("direct", (0x02, b"")); n += 1
+    for bad_apdu, clause in [(h("ff00400e0300000000"), "apdu-Lc"), (h("ff00400e04000000"), "apdu-Lc"), (h("ff00517f0000"), "apdu-Lc"),
+                             (h("ff004800"), "apdu-header"), (h("ff00480001"), "apdu-Lc"), (h("ff00000003d402"), "apdu-Lc"),
+                             (h("ff00990000"), "apdu-ins")]:
+        try:
+            acr122_classify_apdu(bad_apdu)
+            raise AssertionError("accepted " + bad_apdu.hex())
+        except FrameError as e:
+            assert e.clause == clause, (bad_apdu.hex(), e.clause); n += 1
     return n
